@@ -526,6 +526,37 @@ def effect_sets(m, L):
     return out, direct
 
 
+def check_k5_order(chk, m, cfg):
+    """K5.order-agreement: a lookup that stops early because the table is sorted relies on the order registration keeps.  If
+    find_command leaves its scan on a sign test of a comparison (rather than only on equality / the end marker), then
+    console_register must choose its insertion point with that same comparison function: sorted by strcasecmp and searched
+    by strcmp, a name whose two positions differ ('LED' among lower-case names) is registered but never found."""
+    CMP = ("strcmp", "strcasecmp", "strncmp", "strncasecmp", "strcoll")
+    ff, fr = m.fn("find_command"), m.fn("console_register")
+    early = set()
+    for s_, p in paths.enumerate_segments(ff, m):
+        for c, taken, inst in p.conds:
+            cc = strip_casts(c)
+            if cc[0] == "icmp" and cc[1] in ("slt", "sle", "sgt", "sge") and cc[3][0] == "c":
+                x = strip_casts(cc[2])
+                if x[0] == "call" and x[1] in CMP:
+                    early.add(x[1])
+    used = set()
+    for s_, p in paths.enumerate_segments(fr, m):
+        for e in p.events:
+            if e.kind == "call" and e.callee in CMP:
+                used.add(e.callee)
+    if not early:
+        chk.ob("K5.order-agreement", "find_command[%s]" % cfg, True,
+               "find_command leaves its scan only on equality or at the end marker: it does not depend on the table's order", ff.loc, ff.name)
+        return
+    ok = used == early and len(early) == 1
+    chk.ob("K5.order-agreement", "find_command[%s]" % cfg, ok,
+           "find_command stops early on the sign of %s and console_register orders the table with the same function" % ", ".join(sorted(early)) if ok else
+           "find_command stops early on the sign of %s but console_register orders the table with %s: a name whose positions under the two "
+           "orders differ is registered and never found" % (", ".join(sorted(early)), ", ".join(sorted(used)) or "no comparison"), ff.loc, ff.name)
+
+
 def check_k6_k7(chk, m, cfg):
     fn = m.fn("console_run")
     L, _, _, _ = layout(m)
@@ -1096,6 +1127,7 @@ def run(chk):
         check_k3(chk, m, cfg, L)
         check_k4(chk, [m], cfg)
         check_k5(chk, m, cfg)
+        check_k5_order(chk, m, cfg)
         check_k6_k7(chk, m, cfg)
         check_k8(chk, m, cfg, L)
         if cfg == "default":
